@@ -44,6 +44,13 @@ class Model:
             if lst is not None:
                 lst.append(e)
         self._runs = {}
+        # task-level cancel requests are attributed to jobs through task._job,
+        # the back-reference the library installs itself; if a refactoring ever
+        # drops it, the clauses that need it are not evaluated (-> inconclusive)
+        loop = getattr(exe, 'loop', None)
+        unattributed = getattr(loop, 'unattributed_cancels', 0) if loop is not None else 0
+        attributed = any(e['kind'] == 'task_cancel' for e in self.ev)
+        self.cancel_attribution = attributed or not unattributed
 
     # ---- structure
     def direct(self, s):
